@@ -23,4 +23,5 @@ CHECK = {'title': 'Only root-controlled executables are ever run',
                'panics of the call (start failures) are counted and left to C19',
  'runs': [{'pkg': 'internal/util', 'test': 'TestVX_C18', 'shards_quick': 8, 'shards_thorough': 8},
           {'pkg': 'internal/configuration', 'test': 'TestVX_C18config', 'shards_quick': 4, 'shards_thorough': 4},
-          {'pkg': 'cmd', 'test': 'TestVX_C18root', 'shards_quick': 8, 'shards_thorough': 8, 'gomaxprocs': '2'}]}
+          {'pkg': 'cmd', 'test': 'TestVX_C18root', 'shards_quick': 8, 'shards_thorough': 8, 'gomaxprocs': '2'},
+          {'pkg': 'cmd/fan', 'test': 'TestVX_C18cli', 'shards_quick': 6, 'shards_thorough': 6, 'gomaxprocs': '2'}]}
